@@ -1077,6 +1077,16 @@ func (s *Script) Render(logic string, produceModels bool) string {
 		sb.WriteString(") " + d.Res.str + ")\n")
 	}
 	sb.WriteString(s.Prelude)
+	if sorts["Iface"] {
+		// the nil interface value has type tag 0 (every boxed value has a tag >= 1)
+		if _, ok := vars["iface!nil"]; !ok {
+			sb.WriteString("(declare-const |iface!nil| Iface)\n")
+		}
+		if !funs["iface!tag"] {
+			sb.WriteString("(declare-fun |iface!tag| (Iface) (_ BitVec 32))\n")
+		}
+		sb.WriteString("(assert (= (|iface!tag| |iface!nil|) #x00000000))\n")
+	}
 	// name shared nodes (that do not contain bound variables)
 	names := map[*Term]string{}
 	memo := map[*Term]bool{}
